@@ -164,13 +164,16 @@ def _trees(case):
     for ys in case["ys"]:
         y = numpy.array(ys, dtype=numpy.float64)
         for mk in case["models"]:
-            for depth in (1, 2, 3, None):
+            # depth-first growth (max_depth) and best-first growth (max_leaf_nodes: node numbers then follow the order of the
+            # best splits, not the position in the tree)
+            for depth in (1, 2, 3, None, "leaves3", "leaves4", "leaves6"):
+                kw = {"max_depth": depth} if not isinstance(depth, str) else {"max_leaf_nodes": int(depth[6:])}
                 if mk == "reg":
-                    model = DecisionTreeRegressor(max_depth=depth, random_state=0)
+                    model = DecisionTreeRegressor(random_state=0, **kw)
                 elif mk == "clf":
-                    model = DecisionTreeClassifier(max_depth=depth, random_state=0)
+                    model = DecisionTreeClassifier(random_state=0, **kw)
                 else:
-                    model = ExtraTreeRegressor(max_depth=depth, random_state=depth or 7)
+                    model = ExtraTreeRegressor(random_state=7 if isinstance(depth, str) or depth is None else depth, **kw)
                 model.fit(X, y.astype(int) if mk == "clf" else y)
                 t = model.tree_
                 key = (t.node_count, tuple(t.feature.tolist()), tuple(t.threshold.tolist()))
